@@ -37,7 +37,12 @@ struct Owner {
     k: usize,
     data: Vec<u8>,
     panic_in_asref: bool,
+    /// the owner's destructor panics (once, and never while another panic unwinds)
+    panic_in_drop: bool,
 }
+/// set by an owner whose Drop panics: the operation in progress released its last handle, the
+/// panic is the owner's, not the crate's (outcome `opanic`, judged like a drop of the handle)
+static OPANIC: std::sync::atomic::AtomicBool = std::sync::atomic::AtomicBool::new(false);
 impl AsRef<[u8]> for Owner {
     fn as_ref(&self) -> &[u8] {
         OWN_ASREF[self.k].fetch_add(1, Ordering::SeqCst);
@@ -50,6 +55,10 @@ impl AsRef<[u8]> for Owner {
 impl Drop for Owner {
     fn drop(&mut self) {
         OWN_DROP[self.k].fetch_add(1, Ordering::SeqCst);
+        if self.panic_in_drop && !std::thread::panicking() {
+            OPANIC.store(true, Ordering::SeqCst);
+            panic!("owner drop panics");
+        }
     }
 }
 
@@ -563,7 +572,7 @@ impl Machine {
                     la::set_window(1);
                     // (an empty owner still has an address: its handles are located through it)
                     self.owners.push((dv.as_ptr() as usize, dv.len().max(1)));
-                    let owner = Owner { k, data: dv, panic_in_asref: op.mode == 1 };
+                    let owner = Owner { k, data: dv, panic_in_asref: op.mode == 1, panic_in_drop: op.mode == 3 };
                     let b = Bytes::from_owner(owner);
                     newids.push(self.put(H::B(b)));
                 }
@@ -889,7 +898,11 @@ impl Machine {
             Ok(Err(())) => "skip",
             Err(p) => {
                 drop(p);
-                "panic"
+                if OPANIC.swap(false, Ordering::SeqCst) {
+                    "opanic"
+                } else {
+                    "panic"
+                }
             }
         };
         la::set_window(prev);
